@@ -238,7 +238,7 @@ func buildFrames(a *refcodec.API, ver int16, variant string, seed, maxFrames int
 	limit := 6000
 	n := candidatesPerFrame
 	if variant == "big" {
-		limit, n = 120000, 4
+		limit, n = 300000, 8
 	}
 	var cands []*corpusFrame
 	union := map[string]bool{}
